@@ -11,6 +11,49 @@ import (
 
 // forwardsUnchanged: closure fn calls target (a captured func value) exactly once with its own parameters in order.
 func forwardsUnchanged(fn *ssa.Function, target ssa.Value) bool {
+	// a method value of a small adapter object (`hooks.broadcastAck` with hooks = rbcHooks{bcast: bcast}):
+	// the method calls a func-typed field of its by-value receiver with its own parameters unchanged, and
+	// the object bound to the method value holds the target in that field
+	if body := litBody(fn); body != fn && body.Signature.Recv() != nil && len(body.Params) >= 1 {
+		var call *ssa.Call
+		nc := 0
+		for _, in := range instrsOf(body) {
+			if cl, isC := in.(*ssa.Call); isC && staticCallee(&cl.Call) == nil && !cl.Call.IsInvoke() {
+				if _, isB := cl.Call.Value.(*ssa.Builtin); !isB {
+					call = cl
+					nc++
+				}
+			}
+		}
+		if nc != 1 || len(call.Call.Args) != len(body.Params)-1 {
+			return false
+		}
+		for i, a := range call.Call.Args {
+			noParamLook++
+			same := strip(a) == ssa.Value(body.Params[i+1])
+			noParamLook--
+			if !same {
+				return false
+			}
+		}
+		noParamLook++
+		cv := strip(call.Call.Value)
+		noParamLook--
+		po, fld := paramObjectField(cv)
+		if po != body.Params[0] {
+			return false
+		}
+		// the receiver the method value was bound to
+		var recv ssa.Value
+		if mc := methodLiteral[fn]; mc != nil && len(mc.Bindings) == 1 {
+			recv = mc.Bindings[0]
+		}
+		if recv == nil {
+			return false
+		}
+		fv := structFieldValue(recv, fld, 0)
+		return fv != nil && strip(fv) == strip(target)
+	}
 	n := 0
 	ok := false
 	for _, in := range instrsOf(fn) {
@@ -96,37 +139,84 @@ func ruleConstructorWiring(c *Ctx, t *thrModel, ruleRBC, ruleSync string) {
 		nR, nS := 0, 0
 		// the constructor's literals, and those made for it by closure factories it calls
 		type ctorFn struct {
-			fn *ssa.Function
-			fc *ssa.Call // the factory call the literal comes from (nil: written in the constructor)
+			fn    *ssa.Function
+			fc    *ssa.Call   // the factory call the literal comes from (nil: written in the constructor)
+			chain []*ssa.Call // the calls from the constructor down to the construction step holding it
 		}
 		var fns []ctorFn
-		for _, f := range WithAnon(ctor) {
-			fns = append(fns, ctorFn{f, nil})
-		}
-		for _, in := range instrsOf(ctor) {
-			if cl, ok := in.(*ssa.Call); ok {
+		seenStep := map[*ssa.Function]bool{}
+		var collect func(step *ssa.Function, chain []*ssa.Call)
+		collect = func(step *ssa.Function, chain []*ssa.Call) {
+			if seenStep[step] || len(chain) > 2 {
+				return
+			}
+			seenStep[step] = true
+			for _, f := range WithAnon(step) {
+				fns = append(fns, ctorFn{f, nil, chain})
+			}
+			for _, in := range instrsOf(step) {
+				cl, ok := in.(*ssa.Call)
+				if !ok {
+					continue
+				}
 				if mc, fc := closureLiteral(cl); mc != nil && fc != nil && pkgPathOf(fc.Call.StaticCallee()) == PkgThreshold {
 					for _, f := range WithAnon(fc.Call.StaticCallee()) {
-						fns = append(fns, ctorFn{f, fc})
+						fns = append(fns, ctorFn{f, fc, chain})
+					}
+					continue
+				}
+				// a construction step (an unexported function building the scheme for the constructors)
+				if g := cl.Call.StaticCallee(); g != nil && g.Blocks != nil && pkgPathOf(g) == PkgThreshold && g.Object() != nil && !g.Object().Exported() {
+					if ca, via, _ := ctorLiteral(cl); ca != nil && via == cl {
+						collect(g, append(append([]*ssa.Call{}, chain...), cl))
 					}
 				}
 			}
 		}
-		isID := func(v ssa.Value, fc *ssa.Call) bool {
+		collect(ctor, nil)
+		isID := func(v ssa.Value, cf ctorFn) bool {
 			if v == nil {
 				return false
 			}
 			if t.sl.rootOf(v) == id {
 				return true
 			}
-			if a := factoryArg(v, fc); a != nil {
-				return strip(a) == id || t.sl.rootOf(a) == id
+			if ov := throughObjects(v, cf.chain); ov != nil && (strip(ov) == id || t.sl.rootOf(ov) == id) {
+				return true
 			}
-			return false
+			a := v
+			if fa := factoryArg(v, cf.fc); fa != nil {
+				a = fa
+				if strip(a) == id || t.sl.rootOf(a) == id {
+					return true
+				}
+			}
+			// up the chain of construction steps: a step's parameter is what its caller passes
+			for i := len(cf.chain) - 1; i >= 0; i-- {
+				noParamLook++
+				sa := strip(a)
+				noParamLook--
+				p, ok := sa.(*ssa.Parameter)
+				if !ok {
+					if r, isP := t.sl.rootOf(a).(*ssa.Parameter); isP {
+						p, ok = r, true
+					}
+				}
+				g := cf.chain[i].Call.StaticCallee()
+				if !ok || p.Parent() != g {
+					return false
+				}
+				idx := paramIndex(p)
+				if idx < 0 || idx >= len(cf.chain[i].Call.Args) {
+					return false
+				}
+				a = cf.chain[i].Call.Args[idx]
+			}
+			return strip(a) == id || t.sl.rootOf(a) == id
 		}
 		for _, cf := range fns {
 			clo := cf.fn
-			for _, in := range instrsOf(clo) {
+			for _, in := range instrsDeep(clo) {
 				a, ok := in.(*ssa.Alloc)
 				if !ok {
 					continue
@@ -140,7 +230,7 @@ func ruleConstructorWiring(c *Ctx, t *thrModel, ruleRBC, ruleSync string) {
 					av, _ := structLitFieldValue(a, fAck)
 					fv, _ := structLitFieldValue(a, fFwd)
 					okN := nv != nil && len(clo.Params) == 3 && strip(nv) == strip(clo.Params[2])
-					okS := isID(sv, cf.fc)
+					okS := isID(sv, cf)
 					okA, okF := false, false
 					if mc, isMC := strip(av).(*ssa.MakeClosure); av != nil && isMC && len(clo.Params) == 3 {
 						okA = forwardsUnchanged(mc.Fn.(*ssa.Function), clo.Params[0])
@@ -157,7 +247,7 @@ func ruleConstructorWiring(c *Ctx, t *thrModel, ruleRBC, ruleSync string) {
 					iv, _ := structLitFieldValue(a, fMID)
 					bv, _ := structLitFieldValue(a, fMB)
 					sv, _ := structLitFieldValue(a, fMS)
-					ok := len(clo.Params) == 3 && mv != nil && strip(mv) == strip(clo.Params[0]) && isID(iv, cf.fc) &&
+					ok := len(clo.Params) == 3 && mv != nil && strip(mv) == strip(clo.Params[0]) && isID(iv, cf) &&
 						bv != nil && strip(bv) == strip(clo.Params[1]) && sv != nil && strip(sv) == strip(clo.Params[2])
 					c.Check(ok, ruleSync, FuncName(clo), "disc.Member built from the factory's arguments", m.Pos(a.Pos()),
 						"Membership ← members, ID ← id, Broadcast/Send ← the factory's callbacks",
@@ -172,4 +262,81 @@ func ruleConstructorWiring(c *Ctx, t *thrModel, ruleRBC, ruleSync string) {
 			c.Bad(ruleSync, FuncName(ctor), "disc.Member construction", m.Pos(ctor.Pos()), "LoudScheme's SyncFactory does not build a disc.Member")
 		}
 	}
+}
+
+// throughObjects resolves a value read inside a construction step or a callback to the value the
+// constructor holds for it, through the objects that carry it: a field of a by-value parameter object
+// (`p.id` in a method of `schemeParts`), the receiver a method value was bound to (`p.newRBC` taken in
+// `newScheme`, whose own receiver is the object the constructor filled), parameters of transparent helpers
+// and of the construction steps in chain.  Returns nil when a step cannot be followed.
+func throughObjects(v ssa.Value, chain []*ssa.Call) ssa.Value {
+	argOf := func(p *ssa.Parameter) ssa.Value {
+		idx := paramIndex(p)
+		if c := helperCall(p.Parent()); c != nil && idx >= 0 && idx < len(c.Call.Args) {
+			return c.Call.Args[idx]
+		}
+		for _, c := range chain {
+			if c.Call.StaticCallee() == p.Parent() && idx >= 0 && idx < len(c.Call.Args) {
+				return c.Call.Args[idx]
+			}
+		}
+		return nil
+	}
+	// the object value a by-value struct "variable" stands for, one step outwards
+	outer := func(obj ssa.Value) ssa.Value {
+		noParamLook++
+		so := strip(obj)
+		noParamLook--
+		switch x := so.(type) {
+		case *ssa.Parameter:
+			return argOf(x)
+		case *ssa.FreeVar:
+			// the bound receiver of a method value: what it was bound to
+			fn := x.Parent()
+			mc := methodLiteral[fn]
+			if mc == nil {
+				return nil
+			}
+			for k, fv := range fn.FreeVars {
+				if fv == x && k < len(mc.Bindings) {
+					return mc.Bindings[k]
+				}
+			}
+		case *ssa.UnOp:
+			// a by-value parameter spilled to a cell and read back whole
+			if p := handedOnParam(so); p != nil {
+				return argOf(p)
+			}
+		}
+		return nil
+	}
+	for i := 0; i < 10 && v != nil; i++ {
+		noParamLook++
+		sv := strip(v)
+		noParamLook--
+		if po, fld := paramObjectField(sv); po != nil {
+			obj := argOf(po)
+			for j := 0; j < 6 && obj != nil; j++ {
+				if fv := structFieldValue(obj, fld, 0); fv != nil {
+					v = fv
+					break
+				}
+				obj = outer(obj)
+			}
+			if obj == nil {
+				return nil
+			}
+			continue
+		}
+		if p, ok := sv.(*ssa.Parameter); ok {
+			a := argOf(p)
+			if a == nil {
+				return sv
+			}
+			v = a
+			continue
+		}
+		return sv
+	}
+	return v
 }
